@@ -310,10 +310,20 @@ def main():
     chk.cov['evaluations'] = paths
     chk.cov['distinct_nontrivial'] = paths
     chk.cov['exhaustive'] = True
+    from . import extras7
+    for fn_ in ('references_per_assignment',):
+        for pr in getattr(extras7, fn_)()[:2]:
+            chk.violation(pr, {'extras7': fn_})
+        chk.cov['traces_validated_against_impl'] += 1
+    chk.cov.setdefault('bounds', {})['concrete_supplements_round7'] = ['references_per_assignment']
     return chk.finish('every configuration (registered keys x provider kind per key x grammar RREL) is one real load')
 
 
 def replay(data):
+    if isinstance(data, dict) and data.get('extras7'):
+        from . import extras7
+        pr = getattr(extras7, data['extras7'])()
+        return bool(pr), pr[:2]
     if data.get('rrel_grammar_files'):
         pr = grammar_files_rrel_scenario()
         return bool(pr), pr[:3]
